@@ -52,6 +52,13 @@ fn run_suite<S: ShortGroupSignatureScheme + 'static>(em: &mut Emitter, base: &mu
                 d.push(LABELS[i].to_string());
             }
         }
+        // a disclosed claim whose type has a zero-encoded value (attack A8) in two scenarios out of three
+        if k % 3 == 0 && !d.iter().any(|l| l == "age") {
+            d.push("age".into());
+        }
+        if k % 3 == 1 && n_claims >= 4 && !d.iter().any(|l| l == "ssn") {
+            d.push("ssn".into());
+        }
         mix.disclosed = vec![d];
         if k % 3 == 2 {
             mix.commitment = Some(2);
@@ -97,6 +104,50 @@ fn run_suite<S: ShortGroupSignatureScheme + 'static>(em: &mut Emitter, base: &mu
             let schema_j = PresentationSchema::new_with_id(&stmts, &target.schema.id);
             if let Out::Ok(p) = steered_create(&world.credentials, &schema_j, &target.schema, &world.nonce, None) {
                 attack(em, suite, "transplant-from-other-issuer", &world, &p);
+            }
+        }
+        // A8: the adversary *does* hold a credential of issuer I, over another claim vector: a disclosed claim is hidden
+        // inside the proof of knowledge and reported with a value no signature of I covers (false value, or the one value
+        // of its type that encodes to the zero scalar, which contributes the identity to the verifier's equations)
+        {
+            let claims = target.bundles[0].credential.claims.clone();
+            let requested: std::collections::BTreeSet<String> = mix.disclosed[0].iter().cloned().collect();
+            for l in mix.disclosed[0].clone() {
+                let li = LABELS.iter().position(|x| *x == l).unwrap();
+                let mut less = requested.clone();
+                less.remove(&l);
+                let schema_less = crate::c02::with_disclosed(&target.schema, &sid, &less);
+                let zero: Option<credx::claim::ClaimData> = match &claims[li] {
+                    credx::claim::ClaimData::Number(_) => Some(credx::claim::NumberClaim::from(isize::MIN).into()),
+                    credx::claim::ClaimData::Scalar(_) => Some(credx::claim::ScalarClaim::from(Scalar::ZERO).into()),
+                    _ => None,
+                };
+                for (nm, val) in [("unsigned-vector-false-value", Some(crate::c02::false_claim(&claims[li], false))), ("unsigned-vector-zero-encoded-value", zero)] {
+                    let val = match val {
+                        Some(v) if v.to_scalar() != claims[li].to_scalar() => v,
+                        _ => continue,
+                    };
+                    let mut rep = indexmap::IndexMap::new();
+                    for (i, lab) in LABELS.iter().enumerate().take(n_claims) {
+                        if less.contains(*lab) {
+                            rep.insert(lab.to_string(), claims[i].clone());
+                        }
+                    }
+                    let sc = val.to_scalar();
+                    rep.insert(l.clone(), val);
+                    let mut reported = Reported::new();
+                    reported.insert(sid.clone(), rep);
+                    if let Out::Ok(p) = steered_create(&target.credentials, &schema_less, &target.schema, &target.nonce, Some(reported)) {
+                        attack(em, suite, nm, &target, &p);
+                        // the proof's own (index, scalar) list padded with the reported scalar, so that the comparison of
+                        // reported claims and proof passes and only the proof of knowledge stands in the way
+                        let mut q = p.clone();
+                        if let Some(PresentationProofs::Signature(sp)) = q.proofs.get_mut(&sid) {
+                            sp.disclosed_messages.insert(li, sc);
+                        }
+                        attack(em, suite, &format!("{}-listed-in-proof", nm), &target, &q);
+                    }
+                }
             }
         }
         // A7: free challenge
